@@ -487,6 +487,20 @@ func c03ResourceRefused(res FATxResult) bool {
 	return res.Codespace == "sdk" && (res.Code == 11 || res.Code == 12 || res.Code == 21) && len(res.Events) == 0 && !res.Panicked
 }
 
+// c03WireCopy returns msg as a node sees it after decoding the transaction (proto round trip).
+func c03WireCopy(fa *FullApp, msg sdk.Msg) sdk.Msg {
+	cdc := fa.App().AppCodec()
+	bz, err := cdc.MarshalInterface(msg)
+	if err != nil {
+		return msg
+	}
+	var out sdk.Msg
+	if err := cdc.UnmarshalInterface(bz, &out); err != nil || out == nil {
+		return msg
+	}
+	return out
+}
+
 func c03Ids(ps ...int) string {
 	if len(ps) == 0 {
 		return "-"
@@ -748,7 +762,10 @@ func TestC03(t *testing.T) {
 		pre := res.BlockErr != "" && !res.Panicked || c03ResourceRefused(res)
 		for _, msg := range msgs {
 			if p := faRecover(func() {
-				if vb, ok := msg.(sdk.HasValidateBasic); ok && vb.ValidateBasic() != nil {
+				// baseapp validates the message as DECODED from the transaction bytes: an omitted
+				// (nil) decimal, for example, arrives as zero
+				wire := c03WireCopy(fa, msg)
+				if vb, ok := wire.(sdk.HasValidateBasic); ok && vb.ValidateBasic() != nil {
 					pre = true
 				}
 			}); p != "" {
@@ -976,7 +993,7 @@ func TestC03(t *testing.T) {
 		o.res = deliver()
 		o.after = c03Attributed(w, fa.CtxCached(), victim)
 		if p := faRecover(func() {
-			if vb, ok := msg.(sdk.HasValidateBasic); ok && vb.ValidateBasic() != nil {
+			if vb, ok := c03WireCopy(fa, msg).(sdk.HasValidateBasic); ok && vb.ValidateBasic() != nil {
 				o.pre = true
 			}
 		}); p != "" {
